@@ -3,6 +3,7 @@ import json, os, random
 import core
 from stages.common import *
 
+STORE_PATHS = ("file", "boltcur", "boltfin")
 MON_C20 = {"Mon_RoundTripIdentity", "Mon_RoundTripHash", "Mon_MalformedRejected"}
 
 # which harness runs which (type, path)
@@ -51,10 +52,17 @@ def run(ctx, monitors):
                     trips["dkg"].append({"v": v, "path": path, "sel": "first"})
                     if (k + ctx.seed) % 8 == 0:
                         trips["dkg"].append({"v": v, "path": path, "sel": "rest"})
+                    if path == "boltcur" or (path == "boltfin" and k % 8 == 0):
+                        for o in ent["overs"]:
+                            trips["dkg"].append({"v": v, "path": path, "over": o, "sel": "first"})
             continue
-        for v in values:
+        for k, v in enumerate(values):
             for path in ent["paths"]:
                 trips[_where(t, path)].append({"v": v, "path": path})
+                # store paths: the same name held another value before (what is read back is what was written last)
+                if path in STORE_PATHS and not (t == "dbstate" and path == "boltfin" and k % 4):
+                    for o in ent["overs"]:
+                        trips[_where(t, path)].append({"v": v, "path": path, "over": o})
     ctx.notes.append("values of the lattice sent through the real encoders/decoders (per scheme): %s; trips: %s"
                      % (counts, {k: len(v) for k, v in trips.items()}))
     ctx.extra["catalogue"] = {t: len(e["values"]) for t, e in cat.items()}
@@ -79,9 +87,11 @@ def run(ctx, monitors):
     drift = []
     for a in alarms:
         if a["mon"] in monitors:
-            sig = {"stage": "codec", "mon": a["mon"], "type": a["type"], "path": a["path"], "fields": ",".join(sorted(a["fields"]))}
-            ctx.alarm(sig, "%s via %s: %s failed (scheme %s): fields %s, %s"
-                      % (a["type"], a["path"], a["mon"], a["scheme"], sorted(a["fields"]), a["detail"]))
+            sig = {"stage": "codec", "mon": a["mon"], "type": a["type"], "path": a["path"], "fields": ",".join(sorted(a["fields"])),
+                   "overwrite": bool(a.get("overwrite"))}
+            ctx.alarm(sig, "%s via %s%s: %s failed (scheme %s): fields %s, %s"
+                      % (a["type"], a["path"], " (saved over an earlier value under the same name)" if a.get("overwrite") else "",
+                         a["mon"], a["scheme"], sorted(a["fields"]), a["detail"]))
         else:
             drift.append(a)
     if drift:
